@@ -25,6 +25,10 @@ def check_iban(text: str):
     k, o = lib.outcome(lib.IBAN, text)
     if k != "ok":
         return None
+    return check_iban_object(o)
+
+
+def check_iban_object(o):
     probs = []
     s = str(o)
     country = s[:2]
@@ -128,9 +132,17 @@ def iban_shard(args):
             if k0 == "ok":
                 before = [getattr(obj, n) for n in COMPS] + [obj.bban.country_code, str(obj.bban)]
                 for pc in bases.partners(country):
-                    lib.outcome(lib.IBAN.from_bban, pc, obj.bban)
+                    kp, built = lib.outcome(lib.IBAN.from_bban, pc, obj.bban)
                     lib.outcome(lib.IBAN.from_bban, pc, obj.bban, allow_invalid=True)
                     part["evals"] += 2
+                    if kp == "ok":
+                        # the IBAN assembled for the partner from this country's BBAN object
+                        # decomposes by the partner's published layout
+                        naccepted += 1
+                        for sig, exp, obs in check_iban_object(built):
+                            part.violation(sig + " [built from another country's BBAN object]",
+                                           {"kind": "c11obj", "text": str(built), "from_country": country,
+                                            "source": base}, exp, obs)
                 after = [getattr(obj, n) for n in COMPS] + [obj.bban.country_code, str(obj.bban)]
                 if after != before:
                     part.violation("object-altered-by-from_bban-of-another-country",
@@ -171,6 +183,11 @@ def shard(args):
 
 
 def replay(case: dict) -> dict:
+    if case.get("kind") == "c11obj":
+        src = lib.IBAN(case["source"])
+        built = lib.IBAN.from_bban(case["text"][:2], src.bban)
+        probs = check_iban_object(built)
+        return {"ok": not probs, "observed": [(p[0], p[2]) for p in probs]}
     probs = check_iban(case["text"]) if case["type"] == "iban" else check_bic(case["text"])
     return {"ok": not probs, "observed": [(p[0], p[2]) for p in probs or []],
             "expected": [p[1] for p in probs or []]}
